@@ -62,6 +62,8 @@ export function makeRunner(rt_, mode, build) {
     try { text = a.describe(); } catch (e) { return [[A("describe-throws"), String(e && e.message).slice(0, 100)], [A("oracle"), A("fail"), A("c15.throws")]]; }
     if (compiled == null) return [[A("described"), text], [A("oracle"), A("ok")]];
     const fail = [];
+    // describe() is a function of the parser: a second call prints the same text
+    try { if (a.describe() !== text) fail.push(A("c15.stable")); } catch (e) { fail.push(A("c15.throws")); }
     const names = [...text.matchAll(/^type ([A-Za-z0-9_$]+) =/gm)].map((m) => m[1]);
     if (new Set(names).size !== names.length) fail.push(A("c15.once"));
     if (head(compiled) !== "js") { fail.push(A("c15.compile")); return [[A("described"), text], [A("oracle"), A("fail"), ...fail]]; }
